@@ -80,6 +80,7 @@ type Case struct {
 	Rates   []sim.Rates     `json:"rates,omitempty"`
 	MaxRand int             `json:"maxrand,omitempty"`
 	NoLat   bool            `json:"nolat,omitempty"`
+	KeepLog bool `json:"keeplog,omitempty"`
 	// FaultPhase restricts faults to the group phase with this index (-1/0 = all).
 	FaultPhase int `json:"faultphase,omitempty"`
 }
@@ -172,6 +173,9 @@ var RunDirBase = func() string {
 
 var runCounter int
 
+// scanCap bounds every scan made by the harness (a corrupted tree can make Next/Previous cycle).
+const scanCap = 5000
+
 // Env is a running simulated system.
 type Env struct {
 	C      *Case
@@ -184,7 +188,7 @@ type Env struct {
 
 func (c *Case) simConfig() sim.Config {
 	return sim.Config{Seed: c.Seed, Policy: c.Policy, Sticky: c.Sticky, Faults: c.Faults, Rates: c.Rates,
-		MaxRand: c.MaxRand, NoLat: c.NoLat, KeepLog: keepLog}
+		MaxRand: c.MaxRand, NoLat: c.NoLat, KeepLog: keepLog || c.KeepLog}
 }
 
 var keepLog = os.Getenv("VERIF_KEEPLOG") != ""
@@ -430,6 +434,10 @@ func (e *Env) doOp(ctx context.Context, b b3, op *Op) (or OpResult) {
 			or.Items = append(or.Items, KV{k, unpad(v)})
 			n++
 			if op.N > 0 && n >= op.N {
+				break
+			}
+			if n > scanCap {
+				err = fmt.Errorf("scan does not terminate (more than %d items returned)", scanCap)
 				break
 			}
 			if fwd {
@@ -679,6 +687,10 @@ func (e *Env) dumpStore(ctx context.Context, sp StoreSpec, dp *Dump) {
 			break
 		}
 		d.Items = append(d.Items, KV{k, unpad(v)})
+		if len(d.Items) > scanCap {
+			err = fmt.Errorf("forward scan does not terminate (more than %d items returned)", scanCap)
+			break
+		}
 		ok, err = b.Next(ctx)
 	}
 	if err != nil {
@@ -693,6 +705,10 @@ func (e *Env) dumpStore(ctx context.Context, sp StoreSpec, dp *Dump) {
 			break
 		}
 		d.Back = append(d.Back, KV{k, unpad(v)})
+		if len(d.Back) > scanCap {
+			err = fmt.Errorf("backward scan does not terminate (more than %d items returned)", scanCap)
+			break
+		}
 		ok, err = b.Previous(ctx)
 	}
 	if err != nil && d.ScanErr == "" {
